@@ -1524,4 +1524,271 @@ theorem Cubic.cycExp_default (hB : BaseLawful B) (hc : CubicLawful cfg)
 
 end cubiccyc
 
+/-! ## Granger–Scott cyclotomic squaring of `Fp12 = Fp6[w]/(w² - v)`, `Fp6 = Fp2[v]/(v³ - ξ)` -/
+
+section quadnorm
+set_option linter.unusedSectionVars false
+variable {P F : Type} [Field F] [DecidableEq F]
+variable {cfg : QuadCfg F} {B : FieldD P F}
+
+theorem Quad.norm_mul (hB : BaseLawful B) (hc : QuadLawful cfg) (a b : Quad F) :
+    Quad.norm cfg B (Quad.mul cfg B a b) = Quad.norm cfg B a * Quad.norm cfg B b := by
+  rw [Quad.norm_eq hB hc, Quad.norm_eq hB hc, Quad.norm_eq hB hc, Quad.mul_eq hB hc]
+  ring
+
+theorem Quad.norm_conj (hB : BaseLawful B) (hc : QuadLawful cfg) (a : Quad F) :
+    Quad.norm cfg B (Quad.conj a) = Quad.norm cfg B a := by
+  rw [Quad.norm_eq hB hc, Quad.norm_eq hB hc]
+  simp only [Quad.conj]
+  ring
+
+theorem Quad.norm_one (hB : BaseLawful B) (hc : QuadLawful cfg) :
+    Quad.norm cfg B (1 : Quad F) = 1 := by
+  rw [Quad.norm_eq hB hc]; simp
+
+/-- a property of unitary elements that holds for `1`, is closed under the model's multiplication and
+    holds for `a` and its conjugate holds for every integer power of `a` -/
+theorem Quad.unit_zpow_induction (hB : BaseLawful B) (hc : QuadLawful cfg) (a : Quad F)
+    (hn : Quad.norm cfg B a = 1) (S : Quad F → Prop) (h1 : S 1)
+    (hmul : ∀ x y, S x → S y → S (Quad.mul cfg B x y)) (ha : S a) (hca : S (Quad.conj a))
+    (z : ℤ) :
+    letI := Quad.commRing cfg B hB hc
+    S ((Quad.unitOfNormOne hB hc a hn ^ z : (Quad F)ˣ) : Quad F) := by
+  letI := Quad.commRing cfg B hB hc
+  induction z using Int.induction_on with
+  | zero => rw [zpow_zero]; exact h1
+  | succ n ih =>
+    rw [zpow_add_one, Units.val_mul]
+    exact hmul _ _ ih ha
+  | pred n ih =>
+    rw [zpow_sub_one, Units.val_mul]
+    exact hmul _ _ ih hca
+
+end quadnorm
+
+section gs
+set_option linter.unusedSectionVars false
+variable {P G : Type} [Field G] [DecidableEq G]
+
+/-- schoolbook product of `Fp6 = G[v]/(v³ - ξ)` -/
+def cmul (ξ : G) (a b : Cubic G) : Cubic G :=
+  ⟨a.c0 * b.c0 + ξ * (a.c1 * b.c2 + a.c2 * b.c1),
+   a.c0 * b.c1 + a.c1 * b.c0 + ξ * (a.c2 * b.c2),
+   a.c0 * b.c2 + a.c1 * b.c1 + a.c2 * b.c0⟩
+
+/-- schoolbook product of `Fp12 = Fp6[w]/(w² - v)` -/
+def mul12 (ξ : G) (x y : Quad (Cubic G)) : Quad (Cubic G) :=
+  ⟨cmul ξ x.c0 y.c0 + cmul ξ ⟨0, 1, 0⟩ (cmul ξ x.c1 y.c1), cmul ξ x.c0 y.c1 + cmul ξ x.c1 y.c0⟩
+
+/-- `Fp12 = Fp4[w]/(w³ - t)` with `Fp4 = G[t]/(t² - ξ)`, `t = w³`: writing
+    `s = A + B w + C w²` with `A = r0 + r1 t`, `B = r2 + r3 t`, `C = r4 + r5 t`
+    (`r0 r4 r3 = s.c0`, `r2 r1 r5 = s.c1` as in the Rust code), this is the adjugate
+    `(A² - tBC) + (tC² - AB) w + (B² - AC) w²` of `s` over `Fp4`. -/
+def adj4 (ξ : G) (s : Quad (Cubic G)) : Quad (Cubic G) :=
+  let r0 := s.c0.c0
+  let r4 := s.c0.c1
+  let r3 := s.c0.c2
+  let r2 := s.c1.c0
+  let r1 := s.c1.c1
+  let r5 := s.c1.c2
+  ⟨⟨r0 ^ 2 + ξ * r1 ^ 2 - ξ * (r2 * r5 + r3 * r4),
+    r2 ^ 2 + ξ * r3 ^ 2 - r0 * r4 - ξ * (r1 * r5),
+    r4 ^ 2 + ξ * r5 ^ 2 - r0 * r3 - r1 * r2⟩,
+   ⟨2 * ξ * (r4 * r5) - r0 * r2 - ξ * (r1 * r3),
+    2 * r0 * r1 - (r2 * r4 + ξ * (r3 * r5)),
+    2 * r2 * r3 - r0 * r5 - r1 * r4⟩⟩
+
+/-- the Granger–Scott relations: the `Fp4`-adjugate of `s` is its `Fp6`-conjugate, i.e.
+    `Ā = A² - tBC`, `B̄ = AB - tC²`, `C̄ = B² - AC` (the bar is the conjugation of `Fp4/Fp2`).
+    On non-zero `s` this says `s^(p⁴) · s = s^(p²)`, i.e. `s` is in the cyclotomic subgroup of
+    order `Φ₁₂(p) = p⁴ - p² + 1`. -/
+def GSRel (ξ : G) (s : Quad (Cubic G)) : Prop := adj4 ξ s = Quad.conj s
+
+theorem adj4_mul (ξ : G) (x y : Quad (Cubic G)) :
+    adj4 ξ (mul12 ξ x y) = mul12 ξ (adj4 ξ x) (adj4 ξ y) := by
+  obtain ⟨⟨x0, x4, x3⟩, ⟨x2, x1, x5⟩⟩ := x
+  obtain ⟨⟨y0, y4, y3⟩, ⟨y2, y1, y5⟩⟩ := y
+  simp only [adj4, mul12, cmul, Cubic.add_c0, Cubic.add_c1, Cubic.add_c2]
+  apply Quad.ext' <;> apply Cubic.ext' <;>
+    simp only [Cubic.add_c0, Cubic.add_c1, Cubic.add_c2] <;> ring
+
+theorem adj4_conj (ξ : G) (x : Quad (Cubic G)) :
+    adj4 ξ (Quad.conj x) = Quad.conj (adj4 ξ x) := by
+  obtain ⟨⟨x0, x4, x3⟩, ⟨x2, x1, x5⟩⟩ := x
+  simp only [adj4, Quad.conj]
+  apply Quad.ext' <;> apply Cubic.ext' <;> simp <;> ring
+
+theorem conj_mul12 (ξ : G) (x y : Quad (Cubic G)) :
+    Quad.conj (mul12 ξ x y) = mul12 ξ (Quad.conj x) (Quad.conj y) := by
+  obtain ⟨⟨x0, x4, x3⟩, ⟨x2, x1, x5⟩⟩ := x
+  obtain ⟨⟨y0, y4, y3⟩, ⟨y2, y1, y5⟩⟩ := y
+  simp only [mul12, cmul, Quad.conj]
+  apply Quad.ext' <;> apply Cubic.ext' <;> simp <;> ring
+
+theorem GSRel.one (ξ : G) : GSRel ξ (1 : Quad (Cubic G)) := by
+  unfold GSRel adj4 Quad.conj
+  apply Quad.ext' <;> apply Cubic.ext' <;> simp
+
+theorem GSRel.mul {ξ : G} {x y : Quad (Cubic G)} (hx : GSRel ξ x) (hy : GSRel ξ y) :
+    GSRel ξ (mul12 ξ x y) := by
+  unfold GSRel at *
+  rw [adj4_mul, hx, hy, conj_mul12]
+
+theorem GSRel.conj {ξ : G} {x : Quad (Cubic G)} (hx : GSRel ξ x) : GSRel ξ (Quad.conj x) := by
+  unfold GSRel at *
+  rw [adj4_conj, hx]
+
+/-- the hooks of `Fp12ConfigWrapper` (coordinate rotation with the `Fp6Config` hook) are lawful for
+    `NONRESIDUE = v = (0,1,0)` -/
+theorem Fp12.cfg_lawful (c6 : Fp6bCfg G) (hc : CubicLawful c6.wrap)
+    (hnc : ∀ x : G, x ^ 3 ≠ c6.wrap.nonresidue) (tbl : List G) :
+    @QuadLawful (Cubic G) (Cubic.field c6.wrap hc hnc) (Fp12.cfg c6 ⟨0, 1, 0⟩ tbl) := by
+  letI := Cubic.field c6.wrap hc hnc
+  have hm : ∀ x : Cubic G, Fp12.mulFp6ByNr c6 x = Cubic.mul c6.wrap ⟨0, 1, 0⟩ x := by
+    intro x
+    rw [Cubic.mul_eq hc]
+    have := hc.mulNr x.c2
+    apply Cubic.ext' <;> simp [Fp12.mulFp6ByNr]
+    exact this
+  refine ⟨?_, ?_, ?_, ?_⟩
+  · intro x; exact hm x
+  · intro y x
+    show Fp12.mulFp6ByNr c6 y + x = x + Cubic.mul c6.wrap ⟨0, 1, 0⟩ y
+    rw [hm, add_comm]
+  · intro y x
+    show Fp12.mulFp6ByNr c6 y + x + y = x + Cubic.mul c6.wrap ⟨0, 1, 0⟩ y + y
+    rw [hm, add_comm x]
+  · intro y x
+    show x - Fp12.mulFp6ByNr c6 y = x - Cubic.mul c6.wrap ⟨0, 1, 0⟩ y
+    rw [hm]
+
+theorem Cubic.mul_eq_cmul {c : CubicCfg G} (hc : CubicLawful c) (a b : Cubic G) :
+    Cubic.mul c a b = cmul c.nonresidue a b := Cubic.mul_eq hc a b
+
+/-- the model's `Fp12` multiplication is the two-level schoolbook product -/
+theorem Fp12.mul_eq_mul12 (c6 : Fp6bCfg G) (hc : CubicLawful c6.wrap)
+    (hnc : ∀ x : G, x ^ 3 ≠ c6.wrap.nonresidue) (tbl : List G)
+    (B2 : FieldD P G) (hB2 : BaseLawful B2) (x y : Quad (Cubic G)) :
+    letI := Cubic.field c6.wrap hc hnc
+    Quad.mul (Fp12.cfg c6 ⟨0, 1, 0⟩ tbl) (Cubic.fieldD c6.wrap B2) x y
+      = mul12 c6.wrap.nonresidue x y := by
+  letI := Cubic.field c6.wrap hc hnc
+  have hB6 := Cubic.fieldD_baseLawful hB2 hc hnc
+  have hc12 := Fp12.cfg_lawful c6 hc hnc tbl
+  rw [Quad.mul_eq hB6 hc12]
+  show (⟨Cubic.mul c6.wrap x.c0 y.c0 + Cubic.mul c6.wrap ⟨0, 1, 0⟩ (Cubic.mul c6.wrap x.c1 y.c1),
+    Cubic.mul c6.wrap x.c0 y.c1 + Cubic.mul c6.wrap x.c1 y.c0⟩ : Quad (Cubic G)) = _
+  simp only [Cubic.mul_eq_cmul hc]
+  rfl
+
+/-- **Granger–Scott**: on an element satisfying the relations, the compressed squaring is the
+    square -/
+theorem Fp12.cycSquare_eq_mul12 (c6 : Fp6bCfg G) (hc : CubicLawful c6.wrap)
+    (dbl : G → G) (hd : ∀ x, dbl x = x + x) (sq : Quad (Cubic G) → Quad (Cubic G))
+    (limbs : List Nat) (hl : charSquareMod6IsOne limbs = true)
+    (s : Quad (Cubic G)) (hs : GSRel c6.wrap.nonresidue s) :
+    Fp12.cycSquare c6 dbl sq limbs s = mul12 c6.wrap.nonresidue s s := by
+  unfold Fp12.cycSquare
+  rw [if_pos hl]
+  have hm : ∀ x, c6.mulNr x = c6.wrap.nonresidue * x := hc.mulNr
+  simp only [hd, hm, mul12, cmul]
+  unfold GSRel adj4 Quad.conj at hs
+  obtain ⟨⟨r0, r4, r3⟩, ⟨r2, r1, r5⟩⟩ := s
+  have h0 := congrArg Quad.c0 hs
+  have h1 := congrArg Quad.c1 hs
+  have a0 := congrArg Cubic.c0 h0
+  have c0 := congrArg Cubic.c1 h0
+  have b1 := congrArg Cubic.c2 h0
+  have b0 := congrArg Cubic.c0 h1
+  have a1 := congrArg Cubic.c1 h1
+  have c1 := congrArg Cubic.c2 h1
+  simp only [Cubic.neg_c0, Cubic.neg_c1, Cubic.neg_c2] at a0 c0 b1 b0 a1 c1
+  apply Quad.ext' <;> apply Cubic.ext' <;> simp only [Cubic.add_c0, Cubic.add_c1, Cubic.add_c2]
+  · linear_combination 2 * a0
+  · linear_combination 2 * c0
+  · linear_combination 2 * b1
+  · linear_combination 2 * b0
+  · linear_combination 2 * a1
+  · linear_combination 2 * c1
+
+/-- when `p² ≢ 1 (mod 6)` the Rust code falls back to the generic squaring -/
+theorem Fp12.cycSquare_fallback (c6 : Fp6bCfg G) (dbl : G → G)
+    (sq : Quad (Cubic G) → Quad (Cubic G)) (limbs : List Nat)
+    (hl : charSquareMod6IsOne limbs = false) (s : Quad (Cubic G)) :
+    Fp12.cycSquare c6 dbl sq limbs s = sq s := by
+  unfold Fp12.cycSquare
+  rw [hl]; rfl
+
+/-- **`cyclotomic_exp` of `Fp12`** (conjugation inverse, NAF digits, Granger–Scott squaring when
+    `p² ≡ 1 mod 6`, generic squaring otherwise): on a unitary element satisfying the
+    Granger–Scott relations the result is `s ^ e` (power w.r.t. the model's multiplication). -/
+theorem Fp12.cycExp_spec (c6 : Fp6bCfg G) (hc : CubicLawful c6.wrap)
+    (hnc : ∀ x : G, x ^ 3 ≠ c6.wrap.nonresidue) (tbl : List G)
+    (B2 : FieldD P G) (hB2 : BaseLawful B2) (limbs : List Nat) (s : Quad (Cubic G))
+    (hn : letI := Cubic.field c6.wrap hc hnc
+      Quad.norm (Fp12.cfg c6 ⟨0, 1, 0⟩ tbl) (Cubic.fieldD c6.wrap B2) s = 1)
+    (hs : GSRel c6.wrap.nonresidue s) (e : List Nat) (he : WF e) :
+    letI := Cubic.field c6.wrap hc hnc
+    letI := Quad.commRing (Fp12.cfg c6 ⟨0, 1, 0⟩ tbl) (Cubic.fieldD c6.wrap B2)
+      (Cubic.fieldD_baseLawful hB2 hc hnc) (Fp12.cfg_lawful c6 hc hnc tbl)
+    cycExp (CycD.conj (Quad.fieldD (Fp12.cfg c6 ⟨0, 1, 0⟩ tbl) (Cubic.fieldD c6.wrap B2))
+      (some (Fp12.cycSquare c6 B2.double
+        (Quad.fieldD (Fp12.cfg c6 ⟨0, 1, 0⟩ tbl) (Cubic.fieldD c6.wrap B2)).square limbs))) s e
+      = .ok (s ^ value e) := by
+  letI := Cubic.field c6.wrap hc hnc
+  have hB6 := Cubic.fieldD_baseLawful hB2 hc hnc
+  have hc12 := Fp12.cfg_lawful c6 hc hnc tbl
+  refine Quad.cycExp_conj_gen hB6 hc12 _ _ s hn ?_ e he
+  intro z
+  obtain ⟨-, hsz⟩ := Quad.unit_zpow_induction hB6 hc12 s hn
+    (fun x => Quad.norm (Fp12.cfg c6 ⟨0, 1, 0⟩ tbl) (Cubic.fieldD c6.wrap B2) x = 1 ∧
+      GSRel c6.wrap.nonresidue x)
+    ⟨Quad.norm_one hB6 hc12, GSRel.one _⟩
+    (by
+      rintro x y ⟨hx1, hx2⟩ ⟨hy1, hy2⟩
+      refine ⟨by rw [Quad.norm_mul hB6 hc12, hx1, hy1, mul_one], ?_⟩
+      rw [Fp12.mul_eq_mul12 c6 hc hnc tbl B2 hB2]
+      exact hx2.mul hy2)
+    ⟨hn, hs⟩ ⟨by rw [Quad.norm_conj hB6 hc12]; exact hn, hs.conj⟩ z
+  show Fp12.cycSquare c6 B2.double _ limbs _ = Quad.mul _ _ _ _
+  cases hl : charSquareMod6IsOne limbs with
+  | true =>
+    rw [Fp12.cycSquare_eq_mul12 c6 hc B2.double hB2.double _ limbs hl _ hsz,
+      Fp12.mul_eq_mul12 c6 hc hnc tbl B2 hB2]
+  | false =>
+    rw [Fp12.cycSquare_fallback c6 _ _ limbs hl]
+    exact Quad.square_eq hB6 hc12 _
+
+end gs
+
+/-! ## concrete instances over `ZMod 7` (for the non-vacuity examples of `Ark.Props.C02b`) -/
+
+section zmod7
+
+instance fact7 : Fact (Nat.Prime 7) := ⟨by decide⟩
+
+/-- `Fp2 = F₇[X]/(X² + 1)` with the `bls12_381`-style overrides; `C1 = [1, (-1)^3]` -/
+def c7neg : Fp2Cfg (ZMod 7) := Fp2Cfg.negOne (-1) [1, 6]
+/-- `Fp2 = F₇[X]/(X² - 3)` with the default hooks; `C1 = [1, 3^3]` -/
+def c7three : Fp2Cfg (ZMod 7) := Fp2Cfg.default 3 [1, 6]
+/-- `Fp3 = F₇[X]/(X³ - 3)`; `C1 = [1, 3^2, 3^16]`, `C2 = [1, 3^4, 3^32]` -/
+def c7cub : Fp3Cfg (ZMod 7) := Fp3Cfg.default 3 [1, 2, 4] [1, 4, 2]
+/-- the prime-field dictionary of `F₇` -/
+def B7 : FieldD (ZMod 7) (ZMod 7) := primeD (ZMod 7)
+/-- a 3-over-1 "Fp6" configuration over `F₇` (ξ = 3) used to exercise the `Fp12` template -/
+def c7six : Fp6bCfg (ZMod 7) := Fp6bCfg.default 3 [] []
+
+theorem c7neg_lawful : QuadLawful c7neg.wrap := Fp2Cfg.negOne_wrap_lawful _
+theorem c7three_lawful : QuadLawful c7three.wrap := Fp2Cfg.default_wrap_lawful _ _
+theorem c7cub_lawful : CubicLawful c7cub.wrap := Fp3Cfg.default_wrap_lawful _ _ _
+theorem c7six_lawful : CubicLawful c7six.wrap := ⟨fun x => by show x * 3 = 3 * x; ring⟩
+theorem B7_lawful : BaseLawful B7 := primeD_lawful
+
+theorem nonsq7_neg : ∀ x : ZMod 7, x * x ≠ c7neg.wrap.nonresidue := by decide
+theorem nonsq7_three : ∀ x : ZMod 7, x * x ≠ c7three.wrap.nonresidue := by decide
+theorem noncube7 : ∀ x : ZMod 7, x ^ 3 ≠ c7cub.wrap.nonresidue := by decide
+theorem noncube7six : ∀ x : ZMod 7, x ^ 3 ≠ c7six.wrap.nonresidue := by decide
+
+end zmod7
+
 end Ark.ExtB
